@@ -158,12 +158,13 @@ Clauses(e) ==
                <<"round-trip:order", e.closed = "" => Arrived(NO, NS, Id)>> >>
   ELSE
     LET f == Replay(e, Len(e.sched)) IN
-    stmt \o << <<"model:closed", f.c.done = (e.closed # "") /\ (f.c.done => f.c.err = e.closed)>>,
-               <<"model:events", f.ok>>,
-               <<"model:meaning", MeaningOk(e)>>,
-               \* the end of a stream whose last frame is cut by the FIN: the peer is in error (RFC 9114 7.1), but
+    \* (statement clauses first: only the first failing clause of a line is reported)
+    stmt \o << \* the end of a stream whose last frame is cut by the FIN: the peer is in error (RFC 9114 7.1), but
                \* the statement makes no exception - the events still depend only on the bytes of the stream
-               <<"independent:end-of-stream-cut-mid-frame", Open(e) => \A s \in Trunc(e) \cap S : Ends(NO[s]) = Ends(NC[s])>> >>
+               <<"independent:end-of-stream-cut-mid-frame", Open(e) => \A s \in Trunc(e) \cap S : Ends(NO[s]) = Ends(NC[s])>>,
+               <<"model:closed", f.c.done = (e.closed # "") /\ (f.c.done => f.c.err = e.closed)>>,
+               <<"model:events", f.ok>>,
+               <<"model:meaning", MeaningOk(e)>> >>
 
 TInit == l = 1 /\ Init
 TNext == Judge(Clauses) /\ UNCHANGED vars
